@@ -23,7 +23,7 @@ META = {
                     "own Web-Mercator tile arithmetic used only for the bounds cross-check (1e-9 deg) and parent boxes"],
     "deciding": ["invariant:tiling", "post:get_index_of", "invariant:refinement"],
 }
-META["added"] = 'Added: special points (antimeridian, limits, beyond +-180) queried one by one, get_bbox clause, tile edges at exactly 0.0 probed within 1 ulp, clusters above threshold inside one maximum-zoom tile. array queries mixing inside and outside points, deep swarms refined to zoom 12-19 with a per-cell area clause.'
+META["added"] = 'Added: special points (antimeridian, limits, beyond +-180) queried one by one, get_bbox clause, tile edges at exactly 0.0 probed within 1 ulp, clusters above threshold inside one maximum-zoom tile. array queries mixing inside and outside points, deep swarms refined to zoom 12-19 with a per-cell area clause. catalogs with events poleward of the Mercator limit.'
 MANIFEST = {
     "technique": "invariants on live QuadtreeGrid2D objects after each constructor (prefix-free quadkeys with dyadic measure 1 in exact integer arithmetic, bounds vs own tile arithmetic, refinement recount of every leaf and internal node, area sum) + post-condition on get_index_of vs brute-force exact containment on boundary-adjacent probes",
     "level_text": "Each constructed grid is checked as an object (tiling by exact dyadic measure, bounds, refinement criterion by recounting events per leaf and per internal node with the same half-open comparisons, cell areas) and every lookup of boundary-adjacent probe points is compared with the unique cell found by exact comparison against the grid's own bounds.",
@@ -251,6 +251,11 @@ def _catalog(rng, kind, zoom):
         lon, lat = rng.uniform(-180, 180, n), rng.uniform(-85, 85, n)
     elif kind == "point":
         lon, lat = numpy.full(n, float(rng.uniform(-180, 180))), numpy.full(n, float(rng.uniform(-80, 80)))
+    elif kind == "polar":
+        # many events poleward of the Web-Mercator limit (they lie in no tile and must not drive any refinement) + a few ordinary ones
+        n_in = int(rng.integers(0, 6))
+        lon = numpy.concatenate([rng.uniform(-180, 180, n), rng.uniform(-180, 180, n_in)])
+        lat = numpy.concatenate([rng.choice([-1.0, 1.0], n) * rng.uniform(85.06, 89.9, n), rng.uniform(-80, 84, n_in)])
     elif kind == "deepcluster":
         # a tight swarm (a few hundred metres) far from the equator / Greenwich: the refinement runs down to the maximum zoom in one spot
         n = int(rng.integers(20, 60))
@@ -311,8 +316,11 @@ def ex_catalog(ctx, kind, threshold, zoom, seed):
         nt = check_lookup(ctx, reg, rc, tags, rng, tiling=True)
         # the catalog's own events must be located in cells whose recount matches
         ok, idx, tb = ctx.call(reg.get_index_of, numpy.asarray(lon), numpy.asarray(lat))
-        if ok:
+        if not ok:
+            ctx.violate("get_index_of raised", rc, observed=repr(idx), tb=tb, tags=dict(tags, clause="lookup-raised", form="catalog-events"))
+        else:
             cnt, first = containing(reg.bounds, lon, lat)
+            first = first[cnt >= 1]              # events that lie in no tile (beyond the latitude limit) are returned as "no match"
             if numpy.asarray(idx).shape != first.shape or not numpy.array_equal(numpy.asarray(idx), first):
                 ctx.violate("events of the refining catalog are not located in their containing cells", rc, observed=numpy.asarray(idx)[:8],
                             expected=first[:8], tags=dict(tags, clause="lookup-array"))
@@ -391,6 +399,8 @@ def run(ctx):
         zoom = int(r.integers(1, 11 if thorough else 8))
         if j % 10 == 7:
             kind, thr, zoom = "deepcluster", int(r.choice([1, 2, 5])), int(r.integers(12, 20))
+        elif j % 10 == 3:
+            kind = "polar"
         ex_catalog(ctx, kind, thr, zoom, seed=int(r.integers(0, 10 ** 9)))
         if j % 30 == 0:
             ctx.sample({"ctor": "from_catalog", "kind": kind, "threshold": thr, "max_zoom": zoom})
